@@ -467,8 +467,21 @@ type RecM struct {
 	Arr [1][]RecM       `json:"arr"`
 }
 
+// ReuseKey is a map key whose MarshalText returns the same scratch buffer on every call
+// (legal: the interface does not say the result must be fresh; encoding/json copies it at once).
+// Only used by single-goroutine encode workloads.
+type ReuseKey int
+
+var reuseScratch []byte
+
+func (k ReuseKey) MarshalText() ([]byte, error) {
+	reuseScratch = append(reuseScratch[:0], "key-"...)
+	reuseScratch = strconv.AppendInt(reuseScratch, int64(k), 10)
+	return reuseScratch, nil
+}
+
 // EncodeOnly are additional types for the encoding direction.
-var EncodeOnly = []reflect.Type{reflect.TypeOf(RecP{}), reflect.TypeOf(RecM{}), reflect.TypeOf(PtrKeyMap{}), reflect.TypeOf(PShapeJ{}), reflect.TypeOf(PShapeT{}), reflect.TypeOf(PShapeArr{}), reflect.TypeOf(PShapes{})}
+var EncodeOnly = []reflect.Type{reflect.TypeOf(ReuseKey(0)), reflect.TypeOf(RecP{}), reflect.TypeOf(RecM{}), reflect.TypeOf(PtrKeyMap{}), reflect.TypeOf(PShapeJ{}), reflect.TypeOf(PShapeT{}), reflect.TypeOf(PShapeArr{}), reflect.TypeOf(PShapes{})}
 
 // All is the list handed to the generators.
 var All = []reflect.Type{
